@@ -51,6 +51,12 @@ Theorem C20_malformed_ignored :
 Proof. exact malformed_ignored. Qed.
 Print Assumptions C20_malformed_ignored.
 
+(* Zero - an absent or all-zero sequence number - is never accepted, first time or replay. *)
+Theorem C20_zero_never_accepted :
+  forall l s, run init l = Some s -> forall a q, In (a, q) (accepted s) -> 0 < q.
+Proof. intros l s R. apply (zero_never_accepted l init s); [intros a q []|exact R]. Qed.
+Print Assumptions C20_zero_never_accepted.
+
 (* non-vacuity, including the maximum value 2^64-1, zero, a concurrent duplicate and a short encoding *)
 Example C20_nonvacuous :
   exists s, run init [AStart 1%nat 7%nat [0;0;0;0;0;0;0;5]; AStart 2%nat 7%nat [0;0;0;0;0;0;0;5];
